@@ -17,5 +17,11 @@ pub mod stubs;
 mod probes;
 #[path = "lib/c01.rs"]
 pub mod c01;
+#[path = "lib/c03.rs"]
+mod c03;
 #[path = "lib/c04.rs"]
 mod c04;
+#[path = "lib/c05.rs"]
+mod c05;
+#[path = "lib/c17.rs"]
+mod c17;
